@@ -169,10 +169,121 @@ pub fn plans(ctx: &WorkerCtx) -> Vec<Plan> {
     v
 }
 
+
+// ---------------------------------------------------------------------------
+// Isolation sub-check ("nothing but those inputs - no wall clock, no global state")
+// ---------------------------------------------------------------------------
+/// Two unrelated configurations with different start times are advanced alternately in one thread,
+/// each in lock-step with its own model. State kept outside the instance (a `static`, a thread-local,
+/// a cache filled by the first instance) makes one instance's history leak into the other and shows
+/// up deterministically as a mismatch. Returns (calls executed, failure).
+pub fn isolation_run(a: &Cfg, b: &Cfg, o: &Opts) -> (u64, Option<String>) {
+    use maybenot::event::TriggerEvent as T;
+    apply_menu(o);
+    let mut calls = 0u64;
+    let mk = |c: &Cfg| -> Result<(Fw, Obs), String> {
+        let ms = Ms(std::sync::Arc::new(c.machines.clone()));
+        let f = new_fw(c, &ms, &[])?;
+        let obs = Obs::init(c, &[], &f)?;
+        Ok((f, obs))
+    };
+    let (mut fa, mut oa) = match mk(a) {
+        Ok(x) => x,
+        Err(e) => return (0, Some(format!("first instance: {e}"))),
+    };
+    let (mut fb, mut ob) = match mk(b) {
+        Ok(x) => x,
+        Err(e) => return (0, Some(format!("second instance: {e}"))),
+    };
+    let script = |n: usize| -> Vec<Vec<T>> {
+        let mut v: Vec<Vec<T>> = vec![vec![T::NormalSent], vec![T::NormalRecv], vec![T::BlockingBegin { machine: mid(0) }], vec![T::PaddingSent { machine: mid(0) }], vec![T::TunnelRecv], vec![T::BlockingEnd]];
+        if n > 1 {
+            v.push(vec![T::PaddingSent { machine: mid(1) }, T::NormalSent]);
+            v.push(vec![T::TimerBegin { machine: mid(1) }]);
+        }
+        v.push(vec![T::TimerBegin { machine: mid(0) }, T::NormalRecv]);
+        v.push(vec![T::NormalSent, T::NormalSent, T::TunnelSent]);
+        v.push(vec![T::TimerEnd { machine: mid(0) }]);
+        v.push(vec![T::BlockingBegin { machine: mid(n) }]);
+        v.push(vec![T::NormalRecv]);
+        v.push(vec![T::BlockingEnd, T::NormalSent]);
+        v
+    };
+    let (sa, sb) = (script(a.machines.len()), script(b.machines.len()));
+    let (mut ta, mut tb) = (a.start, b.start);
+    let mut stats = Stats::default();
+    for k in 0..sa.len().max(sb.len()) {
+        for (which, f, obs, cfg, sc, t, step) in [(0, &mut fa, &mut oa, a, &sa, &mut ta, 3u64), (1, &mut fb, &mut ob, b, &sb, &mut tb, 5u64)] {
+            let Some(batch) = sc.get(k) else { continue };
+            let prev = *t;
+            *t += step;
+            let before = f.verif_snapshot();
+            calls += 1;
+            let (acts, nd) = match run_call(f, batch, *t, &[]) {
+                Ok(x) => x,
+                Err(e) => return (calls, Some(format!("instance {which} ({}) panicked at call {k}: {e}", cfg.label))),
+            };
+            let after = f.verif_snapshot();
+            let ctx = CallCtx { cfg, batch, prev_now: prev, now: *t, script: &[], draws: nd, actions: &acts, steps: f.verif_steps(), before: &before, after: &after, fw_after: f };
+            if let Err(e) = obs.on_call(&ctx, &mut stats) {
+                return (calls, Some(format!("two unrelated instances advanced alternately: instance {which} ({}) deviates from its own reference semantics at its call {k} {:?}: {e}", cfg.label, batch_to_strings(batch))));
+            }
+        }
+    }
+    (calls, None)
+}
+
+pub fn isolation_pairs(q: bool) -> Vec<(Cfg, Cfg)> {
+    let mut lib: Vec<(String, maybenot::Machine)> = vec![];
+    lib.extend(fam::p_pad().into_iter().step_by(3));
+    lib.extend(fam::p_blk().into_iter().step_by(4));
+    lib.extend(fam::p_lim().into_iter().step_by(7));
+    lib.extend(fam::p_sig());
+    lib.extend(fam::p_ctr().into_iter().step_by(if q { 31 } else { 7 }));
+    lib.extend(fam::g2(if q { 9973 } else { 1999 }, 3));
+    let fr = [(0.5, 0.5), (0.25, 1.0), (0.0, 0.0), (1.0, 0.25)];
+    let mut singles = fam::singles(&lib, &fr[..2]);
+    singles.extend(fam::pairs_strided(&lib, 31, 7, &fr));
+    // different start times, so that a value cached from another instance is visibly wrong
+    for (i, c) in singles.iter_mut().enumerate() {
+        c.start = 1_000 + 37 * (i as u64 % 11);
+    }
+    let n = singles.len();
+    (0..n).map(|i| (singles[i].clone(), singles[(i * 7 + 3) % n].clone())).collect()
+}
+
 pub const RULE: &str = "every explored transition = one trigger_events call on the real Framework from an explored state, for every batch of the alphabet, every time step and every RNG script; each is executed in lock-step on the reference semantics and compared (actions, internal step sequence, draw count, runtime snapshot). distinct_nontrivial = distinct product states first reached by a call in which some machine took a transition or an action was returned";
 
 pub fn worker(ctx: &WorkerCtx) -> WorkerOut {
-    let s = run_e1::<Obs>("C05", plans(ctx), ctx, RULE);
+    // isolation sub-check first, single-threaded and deterministic (before any other instance exists in this process)
+    let mut iso_reported = vec![];
+    let mut iso_calls = 0u64;
+    let pairs = isolation_pairs(ctx.quick());
+    if ctx.only_unit.is_none() {
+        let o = Opts { n32: 2, n64: 3, ..Default::default() };
+        for (i, (a, b)) in pairs.iter().enumerate() {
+            let (n, f) = isolation_run(a, b, &o);
+            iso_calls += n;
+            if i % 64 == 0 {
+                crate::supervise::beat();
+            }
+            if let Some(msg) = f {
+                if iso_reported.len() < 5 {
+                    iso_reported.push(Rep {
+                        signature: format!("C05:isolation:{}|{}", a.label, b.label),
+                        summary: format!("[{} || {}] {}", a.label, b.label, msg),
+                        replay: json!({"property": "C05", "engine": "E1-isolation", "message": msg, "pair_index": i, "tier": ctx.tier,
+                            "first": {"label": a.label, "machines_debug": a.machines.iter().map(|m| format!("{:?}", m)).collect::<Vec<_>>(), "start_us": a.start, "fracs": [a.pad_frac, a.blk_frac]},
+                            "second": {"label": b.label, "machines_debug": b.machines.iter().map(|m| format!("{:?}", m)).collect::<Vec<_>>(), "start_us": b.start, "fracs": [b.pad_frac, b.blk_frac]}}),
+                    });
+                }
+            }
+        }
+    }
+    let mut s = run_e1::<Obs>("C05", plans(ctx), ctx, RULE);
+    s.coverage["isolation_pairs_advanced_alternately"] = json!(pairs.len());
+    s.coverage["isolation_calls"] = json!(iso_calls);
+    s.reported.extend(iso_reported);
     let vacuous = if s.nontrivial_states < 1000 && ctx.only_unit.is_none() && s.reported.is_empty() { Some(format!("only {} non-trivial states", s.nontrivial_states)) } else { None };
     WorkerOut {
         level: "model_checking",
@@ -188,5 +299,19 @@ pub fn worker(ctx: &WorkerCtx) -> WorkerOut {
 }
 
 pub fn replay(v: &Value) -> Result<Option<String>, String> {
+    if v["engine"].as_str() == Some("E1-isolation") {
+        // deterministic single-threaded re-run of the same alternating pair, twice
+        let q = v["tier"].as_str() != Some("thorough");
+        let pairs = isolation_pairs(q);
+        let i = v["pair_index"].as_u64().ok_or("no pair index")? as usize;
+        let (a, b) = pairs.get(i).ok_or("pair index out of range")?;
+        let o = Opts { n32: 2, n64: 3, ..Default::default() };
+        let r1 = isolation_run(a, b, &o).1;
+        let r2 = isolation_run(a, b, &o).1;
+        if r1.is_some() != r2.is_some() {
+            return Err(format!("isolation replay is not deterministic: {:?} / {:?}", r1, r2));
+        }
+        return Ok(r1);
+    }
     replay_e1::<Obs>(v, true)
 }
